@@ -8,7 +8,7 @@ from unittest import mock
 
 from .common import TREES, Bounded, build_arch, desc_set, import_relations, outcome, pmap
 
-LTREE = ["r", "r.a", "r.a.x", "r.a.x.p", "r.ab", "r.ab.y", "r.b", "r.b.x", "r.c", "r.c.z", "r.d", "r.e"]
+LTREE = ["r", "r.a", "r.a.x", "r.a.x.p", "r.ab", "r.ab.y", "r.b", "r.b.x", "r.c", "r.c.z", "r.d", "r.e", "r.G", "r.G.k"]   # (r.G: a capitalised name sorts before the lower-case ones)
 
 
 def layer_rule(la, subject, verb, acc, exc, objects, any_layer=False):
@@ -329,9 +329,11 @@ def _c14l_case(seed):
     res = {}
     # (the fourth naming reverses the alphabetical order of the components: sorted name lists come out in the opposite order)
     RHO_REV = {"r": "r", "a": "y", "b": "x", "c": "w", "d": "v", "x": "c", "y": "b", "p": "a", "xy": "bb", "ab": "yy", "bc": "xx"}
-    res_names = ("free", "adv", "adv2", "rev")
-    for nm, rho0 in (("free", RHO_FREE), ("adv", RHO_ADV), ("adv2", RHO_ADV2), ("rev", RHO_REV)):
-        rho = {**rho0, "z": rho0.get("p", "z") + "z", "e": rho0.get("d", "e") + "e", "q": rho0.get("x", "q") + "q", "w": rho0.get("y", "w") + "w"}
+    # (the fifth naming mixes upper and lower case: code-point order and case-insensitive order of the names differ)
+    RHO_CASE = {"r": "r", "a": "Alpha", "b": "beta", "c": "Gamma", "d": "delta", "x": "Xi", "y": "ypsilon", "p": "Pi", "xy": "chi", "ab": "Omega", "bc": "kappa"}
+    res_names = ("free", "adv", "adv2", "rev", "case")
+    for nm, rho0 in (("free", RHO_FREE), ("adv", RHO_ADV), ("adv2", RHO_ADV2), ("rev", RHO_REV), ("case", RHO_CASE)):
+        rho = {**rho0, "z": rho0.get("p", "z") + "z", "e": rho0.get("d", "e") + "e", "q": rho0.get("x", "q") + "q", "w": rho0.get("y", "w") + "w", "G": "G" + rho0.get("a", "a"), "k": "k" + rho0.get("b", "b")}
         R = lambda m: rename(m, rho)
         arch = build_arch([R(m) for m in mods], [(R(a), R(c)) for a, c in imports])
         la = make_architecture([(n, ("names", [R(x) for x in v])) for n, (k, v) in defs])
@@ -354,7 +356,7 @@ def _c14l_case(seed):
                 res[nm] += (sorted((inv[k], shape(k, v)) for k, v in got["labels"].items()),)
             except Exception as e:
                 res[nm] += (type(e).__name__,)
-    if not (res["free"] == res["adv"] == res["adv2"] == res["rev"]):
+    if not (res["free"] == res["adv"] == res["adv2"] == res["rev"] == res["case"]):
         return [dict(case="renaming-layers-labels", detail=f"layer verdict / message (with layer tags) / labels differ under injective renamings: {res}", input=dict(kind="c14l", seed=seed))]
     return []
 
